@@ -364,7 +364,7 @@ def instances(tier):
 BOUNDS = {
     'quick': 'const: shapes (2,2),(2,3) with zero lists of 1-3 indices and protected indices, symbolic v (all sign/size '
              'branches); delta incl. negative positions; vector_delta q<=3, matrix_delta q<=2 with symbolic integer positions '
-             '(all of [-2^q, 2^q)); poly power 1..3 with symbolic shift/scale; random constructors through the generator stub',
+             '(all of [-2^q, 2^q)); poly power 1..3 with symbolic shift/scale; random constructors through the generator stub (rand on [-2,3], [-1,0], [0,2], [-3,-1], integer [-2,0], [1/4,1/2])',
     'thorough': 'adds 3-D const shapes, q<=6 (vector) / q<=3 (matrix), larger poly shapes',
 }
 OUTSIDE = 'float step int(i/2) for q > 53 (separate QF_FP lemma); distributional quality of the generator; larger shapes'
